@@ -50,7 +50,6 @@ Proof.
     repeat rewrite <- app_assoc. cbn [app]. rewrite zlen_app. change (zlen [c]) with 1. f_equal. f_equal. lia.
 Qed.
 
-Definition raw_canvas8 (pw w width : Z) (r : bytes) : bytes := canvas_row pw w width (firstn (Z.to_nat w) r).
 
 Lemma zlen_firstn_le {A} (l : list A) n : 0 <= n <= zlen l -> zlen (firstn (Z.to_nat n) l) = n.
 Proof. intros H. unfold zlen in *. rewrite firstn_length. rewrite Nat2Z.inj_min, Z2Nat.id by lia. lia. Qed.
